@@ -161,7 +161,8 @@ static void send_more(int ci, size_t upto) {
 	int mode = (int)(c.cutseed % 5);
 	for (size_t k = 1; k < part.size(); k++) {
 		uint64_t h = mix(c.cutseed, c.sent + k);
-		bool cut = mode == 0 ? false : mode == 1 ? (part.size() < 3000) : mode == 2 ? h % 3 == 0 : mode == 3 ? h % 17 == 0 : h % 257 == 0;
+		bool big = part.size() > 4000;	// long payloads are cut more sparsely, or a run is mostly segments
+		bool cut = mode == 0 ? false : mode == 1 ? !big : mode == 2 ? h % (big ? 97 : 3) == 0 : mode == 3 ? h % (big ? 1021 : 17) == 0 : h % 257 == 0;
 		if (cut) cuts.push_back(k);
 	}
 	vk::ep_send_cut(c.ep, part, cuts, 1000);
@@ -260,7 +261,9 @@ static void exec_op(const Op &op, Rng &r) {
 		if (R->wc[ci].twin_of >= 0) ci = R->wc[ci].twin_of;
 		WConn &m = R->wc[ci];
 		if (m.closed_by_client || m.frames.size() > 600000) break;
-		std::string f = make_frames((int)op.a[1], op.a[2], r);
+		int shape = (int)(op.a[1] % 24);
+		if (shape == 11 && suppressed("data-frame-inside-fragmented-message")) { probe("known:data-frame-inside-fragmented-message"); shape = 4; }
+		std::string f = make_frames(shape, op.a[2], r);
 		m.frames += f;
 		for (int t = 0; t < NCONN; t++) if (R->wc[t].twin_of == ci) R->wc[t].frames += f;
 		break;
